@@ -38,7 +38,14 @@ def gen_case(case):
     srcs = []
     mode = r.random()
     meta = {}
-    if mode < 0.3:
+    if mode < 0.08:
+        meta["mode"] = "twin-gradients"
+        for g in range(r.randint(1, 2)):
+            t, m = svggen.twin_gradient_source(r, g)
+            srcs.append(t)
+        if "transform" in cfg:
+            del cfg["transform"]
+    elif mode < 0.3:
         meta["mode"] = "random"
         for g in range(r.randint(1, 4)):
             t, m = svggen.svg_source(r, g, pal)
